@@ -52,7 +52,10 @@ def units():
     # ports called like the objects Series itself creates (its internal net `i`, its instance array `units`)
     EI = h.ExternalModule(name="UI", port_list=[h.Inout(name="i"), h.Inout(name="o"), h.Inout(name="units")], desc="",
                           domain="u")
-    return [("EI", lambda: EI(), ["i", "o", "units"]),
+    # ports called like the flat instances elaboration makes of the array (`units_0`, `units_1`, ...)
+    EF = h.ExternalModule(name="UF", port_list=[h.Inout(name="a"), h.Inout(name="units_0"), h.Inout(name="units_1"),
+                                                h.Inout(name="i_0")], desc="", domain="u")
+    return [("EI", lambda: EI(), ["i", "o", "units"]), ("EF", lambda: EF(), ["a", "units_0", "units_1", "i_0"]),
             ("R", lambda: h.R(r=1), ["p", "n"]), ("Nmos", lambda: h.Nmos(), ["d", "g", "s", "b"]),
             ("E3", lambda: E3(), ["a", "b", "c"]), ("Mod", lambda: Mod, ["x", "y"]),
             ("EU", lambda: EU(), ["a", "z", "_sub"])]
@@ -91,10 +94,17 @@ def check_series(case):
         pkg = h.to_proto(m)
     except Exception as e:
         return (f"export.raises.{type(e).__name__}", f"{case!r}: {type(e).__name__}: {str(e)[-160:]}", w)
-    pm = package_meaning(pkg, m.name)
+    from rtc.meaning import InvalidPackage
+    try:
+        pm = package_meaning(pkg, m.name)
+    except InvalidPackage as e:
+        return ("export.not-a-circuit", f"{case!r}: the exported package is not a circuit: {str(e)[:200]}", w)
     # leaf-level view: find which net each unit's series/parallel port sits on.  For Module units look one level down
     # through the unit's own ports (the unit's port nets appear in the partition through its leaves).
     top = [mm for mm in pkg.modules if mm.name.endswith(m.name) or mm.name == m.name][-1]
+    exported_ports = [p_.signal for p_ in top.ports]
+    if sorted(exported_ports) != sorted(uports) or sorted(s_.name for s_ in top.signals if s_.name in uports) != sorted(uports):
+        return ("post.ports", f"{case!r}: the exported module has ports {exported_ports}, the unit has {list(uports)}", w)
     insts = list(top.instances)
     if len(insts) != n:
         return ("post.count", f"{case!r}: {len(insts)} unit instances, expected {n}", w)
@@ -189,6 +199,32 @@ def check_misc(case):
                 return (f"export.raises.{type(e).__name__}", f"{m.name} (built before later generator calls over the "
                                                              f"same unit): {type(e).__name__}: {str(e)[-140:]}", w)
         return None
+    if kind == "same-named-units":
+        # unit modules made by one factory share a qualified name but are different modules (different ports, different
+        # contents): each stack / wrapper is built over the unit it was given
+        def factory(k):
+            u = h.Module(name="FUnit")
+            u.add(h.Port(), name="p")
+            u.add(h.Port(), name="q")
+            u.add(h.Port(width=k + 1), name=f"side{k}")     # the units differ in a parallel port, not in the series pair
+            u.r = h.R(r=k + 1)(p=u.p, n=u.q)
+            return u
+        for n in (1, 2, 3):
+            for k in (0, 1, 2):
+                u = factory(k)
+                for what, m in (("Series", Series(unit=u, conns=("p", "q"), nser=n)), ("Wrapper", Wrapper(u))):
+                    if sorted(m.ports) != sorted(u.ports):
+                        return ("post.ports", f"{what} over the {k + 1}. unit named FUnit (nser={n}) has ports "
+                                              f"{sorted(m.ports)}, its unit has {sorted(u.ports)}", w)
+                    targets = [i.of for i in list(m.instances.values()) + list(m.instarrays.values())]
+                    if not targets or any(t is not u for t in targets):
+                        return ("post.unit", f"{what} over the {k + 1}. unit named FUnit (nser={n}) instantiates another "
+                                             f"module than the one it was given", w)
+                    try:
+                        h.to_proto(m)
+                    except Exception as e:
+                        return (f"export.raises.{type(e).__name__}", f"{what} over the {k + 1}. FUnit: {str(e)[-140:]}", w)
+        return None
     if kind == "wrapper":
         @h.bundle
         class WB:
@@ -250,7 +286,7 @@ def run(ctx):
                          "n units, one internal net of width n-1, unit k's ports on the nets the chain lemma names, "
                          "all other ports (a `_sub` pin among them) on the same-named module port; distinct = distinct case; non-trivial = n>=2",
                     bound="n<=8 (16 thorough)", key_of=repr, nontrivial=lambda c: c[3] >= 2)
-    ctx.run_bounded("series-misc", [("misc", k) for k in ("nser<1", "bad-port", "mosstack", "wrapper", "build-many-then-export")],
+    ctx.run_bounded("series-misc", [("misc", k) for k in ("nser<1", "bad-port", "mosstack", "wrapper", "build-many-then-export", "same-named-units")],
                     check_misc,
                     rule="rejections, MosStack == Series over (d, s), Wrapper over module with bus and bundle ports / "
                          "primitives / an external module with `_sub` and `name` ports; 13 generated modules over the "
